@@ -319,8 +319,20 @@ impl Property for C14 {
             lines.pop();
             lines.push(Line::oracle(format!("shandles 1 {nsh}"), final_states[n].clone()));
         }
-        // shutdown hands back the store with every acknowledged write
-        let mut store = rt.block_on(handle.shutdown())?;
+        // shutdown hands back the store with every acknowledged write; a request that is already
+        // queued behind the shutdown must be answered (with an error), not left waiting (F14)
+        let (store, queued) = rt.block_on(async {
+            let h2 = handle.clone();
+            let id = self.keys.namespaces[0].id();
+            let shutdown = handle.shutdown();
+            let state = h2.get_state(id);
+            tokio::join!(shutdown, async { tokio::time::timeout(std::time::Duration::from_secs(5), state).await })
+        });
+        lines.push(Line::oracle(
+            "sconst queued-behind-shutdown-is-answered",
+            if queued.is_ok() { "queued-behind-shutdown-is-answered" } else { "request-queued-behind-shutdown-never-answered" },
+        ));
+        let mut store = store?;
         iroh_docs::verif::set_clock_micros(None);
         let mut toks = vec![];
         for ns in {
